@@ -5,6 +5,8 @@ Sub-checks
           rendered as literals, against vp/ref/strings.py (own transcription of F&O 3.1 / XPath 1.0 4.2)
   lxml  : XPath 1.0 parser against libxml2 (lxml.etree.XPath with $variables) on the 1.0 string functions
   laws  : the round trips / relations named by the property, evaluated as nested expressions
+  reuse : one parsed expression (literal / variable argument mixes) evaluated for 3-6 different argument tuples in a
+          row, inside `for` over a sequence, and over several items of a document; every evaluation is judged
 """
 from __future__ import annotations
 
@@ -58,6 +60,10 @@ FLOORS = {
     'ref:literal': (0.10, 'ref:call'),
     'lxml:nontrivial': (0.5, 'lxml:call'),
     'laws:contains-true': (0.25, 'laws:split'),
+    'reuse:mixed-literal-variable': (0.4, 'reuse:case'),
+    'reuse:3+distinct-tuples': (0.6, 'reuse:case'),
+    'reuse:wrap:for': (0.12, 'reuse:case'),
+    'reuse:wrap:items': (0.15, 'reuse:case'),
 }
 
 CP_URI = R.CODEPOINT_COLLATION
@@ -210,6 +216,12 @@ def _mk_pair(mx: _Mix, pool):
 def _mk_call(mx: _Mix, pool, versions=('1.0', '2.0', '3.0', '3.1'), lit_ok=True) -> dict:
     ver = mx.pick(versions)
     fn = mx.pick(_V1_FUNCS if ver == '1.0' else _V2_FUNCS)
+    args = _mk_args(mx, pool, ver, fn)
+    lit = lit_ok and mx.below(5) == 0
+    return {'ver': ver, 'fn': fn, 'args': args, 'lit': lit}
+
+
+def _mk_args(mx: _Mix, pool, ver, fn) -> list:
     v2 = ver != '1.0'
 
     def S(x):
@@ -265,8 +277,60 @@ def _mk_call(mx: _Mix, pool, versions=('1.0', '2.0', '3.0', '3.1'), lit_ok=True)
         args = [opt(S(_mk_str(mx, pool)))]
     if not v2:      # XPath 1.0 numbers are doubles
         args = [_dj(_ref_double(a)) if a[0] in ('i', 'c') else a for a in args]
-    lit = lit_ok and mx.below(5) == 0
-    return {'ver': ver, 'fn': fn, 'args': args, 'lit': lit}
+    return args
+
+
+_REUSE_WRAPS = ['plain', 'plain', 'for', 'items']
+_NO_ITER = ('codepoints-to-string', 'string-to-codepoints')      # sequence valued: plain re-evaluation only
+REUSE_BATCH = 8
+
+
+def _mk_reuse(mx: _Mix, pool) -> dict:
+    """one call shape (function + literal / variable mask) with 3-6 argument tuples that share the literal arguments"""
+    ver = mx.pick(['1.0', '2.0', '3.0', '3.1'])
+    fn = mx.pick(_V1_FUNCS if ver == '1.0' else _V2_FUNCS)
+    wrap = mx.pick(_REUSE_WRAPS)
+    if fn in _NO_ITER or (wrap == 'for' and ver == '1.0'):
+        wrap = 'plain' if fn in _NO_ITER or mx.below(2) else 'items'
+
+    def clean(args):
+        out = []
+        for a in args:
+            if a[0] == 'e':
+                a = ['s', '']                      # the empty sequence cannot be a literal / an item of a sequence
+            if fn == 'concat' and a[0] in ('d', 'i', 'c'):
+                a = ['s', _mk_short(mx, pool)]     # number formatting is judged by the ref sub-check
+            out.append(a)
+        return out
+
+    row0 = clean(_mk_args(mx, pool, ver, fn))
+    n = len(row0)
+    rows = [row0]
+    for _ in range(2 + mx.below(4)):
+        row = None
+        for _try in range(6):
+            cand = clean(_mk_args(mx, pool, ver, fn))
+            if len(cand) == n and all((a[0] == 'coll') == (b[0] == 'coll') for a, b in zip(cand, row0)):
+                row = cand
+                break
+        if row is None:
+            row = [list(a) for a in row0]
+            row[0] = ['s', _mk_str(mx, pool)] if row[0][0] == 's' else row[0]
+        rows.append(row)
+    # literal / variable mask: collation URIs are always literal; at least one variable position
+    lits = [a[0] == 'coll' or mx.below(2) == 0 for a in row0]
+    free = [i for i, a in enumerate(row0) if a[0] != 'coll']
+    if all(lits[i] for i in free):
+        lits[mx.pick(free)] = False
+    if fn == 'translate' and mx.below(3) == 0:
+        lits = [mx.below(2) == 0, True, False]    # literal map string, computed replacement string
+    for r in rows[1:]:
+        for i in range(n):
+            if lits[i]:
+                r[i] = row0[i]
+            elif wrap == 'items' and (r[i][0] != 's' or row0[i][0] != 's'):
+                r[i] = row0[i]                     # only strings vary between items
+    return {'ver': ver, 'fn': fn, 'wrap': wrap, 'lits': lits, 'rows': rows}
 
 
 def _mk_law(mx: _Mix, pool) -> dict:
@@ -283,6 +347,8 @@ def expand(check: str, pool) -> list:
         return [_mk_call(mx, pool) for _ in range(BATCH)]
     if check == 'lxml':
         return [_mk_call(mx, pool, versions=('1.0',)) for _ in range(BATCH)]
+    if check == 'reuse':
+        return [_mk_reuse(mx, pool) for _ in range(REUSE_BATCH)]
     return [_mk_law(mx, pool) for _ in range(BATCH)]
 
 
@@ -1031,10 +1097,158 @@ def judge_laws(case, rec=None):
 
 
 # --------------------------------------------------------------------------
+# reuse: ONE parsed expression, evaluated several times with different arguments / over several items
+# --------------------------------------------------------------------------
+
+def _render_arg_literal(a, ver, i):
+    k = a[0]
+    if k == 'coll':
+        return "'" + _COLL[a[1]] + "'"
+    if k == 's':
+        return _quote(a[1], ver, (len(a[1]) + i) & 1)
+    if k == 'b':
+        return 'true()' if a[1] else 'false()'
+    if k == 'cps':
+        return '(' + ', '.join(str(c) if c >= 0 else '(' + str(c) + ')' for c in a[1]) + ')'
+    return _lit_number(a, ver)
+
+
+def judge_reuse_case(case, rec: Recorder | None = None) -> list[Disc]:
+    from elementpath import XPathContext, ElementPathError
+    import xml.etree.ElementTree as ET
+    ver, fn, wrap, rows = case['ver'], case['fn'], case['wrap'], case['rows']
+    lits = list(case['lits'])
+    discs: list[Disc] = []
+    vg = _vgroup(ver)
+    n = len(rows[0])
+    # literal rendering (a string with both quote kinds cannot be an XPath 1.0 literal: it becomes a variable)
+    parts = []
+    for i, a in enumerate(rows[0]):
+        if lits[i]:
+            lit = _render_arg_literal(a, ver, i)
+            if lit is None:
+                lits[i] = False
+            parts.append(lit)
+        else:
+            parts.append(None)
+    var_pos = [i for i in range(n) if not lits[i]]
+    bool_fn = fn in ('contains', 'starts-with', 'ends-with', 'codepoint-equal')
+    expected = []
+    for r in rows:
+        try:
+            expected.append(_expected({'ver': ver, 'fn': fn, 'args': r}))
+        except NoVerdict:
+            expected.append(None)
+    root = _root()
+    if wrap == 'plain':
+        expr = fn + '(' + ', '.join(parts[i] if lits[i] else '$v%d' % i for i in range(n)) + ')'
+    elif wrap == 'for':
+        expr = 'for $k in 1 to %d return %s(%s)' % (len(rows), fn, ', '.join(
+            parts[i] if lits[i] else '$v%d[$k]' % i for i in range(n)))
+    else:
+        root = ET.Element('r')
+        for r, e in zip(rows, expected):
+            it = ET.SubElement(root, 'i')
+            for i in var_pos:
+                if r[i][0] == 's':
+                    it.set('a%d' % i, r[i][1])
+            if e is not None and e[0] in ('str', 'int'):
+                it.set('e', str(e[1]))
+        att = '@a%d' if ver == '1.0' else '$i/@a%d'
+        call = fn + '(' + ', '.join(parts[i] if lits[i] else (att % i if rows[0][i][0] == 's' else '$v%d' % i)
+                                   for i in range(n)) + ')'
+        if ver == '1.0':
+            expr = 'count(//i[%s])' % (call if bool_fn else call + ' = @e')
+        else:
+            expr = 'for $i in //i return ' + call
+    mixed = any(lits[i] for i in range(n) if rows[0][i][0] != 'coll') and bool(var_pos)
+    distinct = len({canon(r) for r in rows})
+    classes = ['reuse:case', 'reuse:wrap:' + wrap, 'reuse:fn:' + fn, 'reuse:ver:' + ver]
+    if mixed:
+        classes.append('reuse:mixed-literal-variable')
+    if distinct >= 3:
+        classes.append('reuse:3+distinct-tuples')
+    if rec is not None:
+        rec.case(['reuse', ver, fn, wrap, lits, rows], nontrivial=distinct >= 2, n=len(rows),
+                 sample={'check': 'reuse', 'expr': expr, 'case': case}, classes=classes)
+        rec.cls('reuse:evaluations', len(rows))
+    base = f'C09/reuse/{wrap}/{fn}/{vg}'
+
+    def fresh_ok(r, e):
+        """is the same call right when parsed and evaluated on its own?"""
+        c = {'ver': ver, 'fn': fn, 'args': r, 'lit': False}
+        ex, vs = _render(c)
+        try:
+            return _compare(c, e[0], e[1], _evaluate(ver, ex, vs, fresh=True)) is None
+        except Exception:
+            return False
+
+    def report(k, r, e, res):
+        c = {'ver': ver, 'fn': fn, 'args': r, 'lit': False}
+        bad = _compare(c, e[0], e[1], res)
+        if bad is None:
+            return
+        kind = 'state-kept-on-token' if fresh_ok(r, e) else bad[0]
+        discs.append(Disc(f'{base}/{kind}', e[1], bad[1], f'evaluation #{k + 1} of {expr} with {r!r}'[:500]))
+
+    try:
+        token = _parser(ver).parse(expr)
+        if wrap == 'plain':
+            for k, (r, e) in enumerate(zip(rows, expected)):
+                variables = {'v%d' % i: _py_value(r[i]) for i in var_pos}
+                try:
+                    res = ('ok', token.get_results(XPathContext(root, variables=variables)))
+                except ElementPathError as err:
+                    res = ('error', (err.code or '').split(':')[-1], str(err))
+                if e is not None:
+                    report(k, r, e, res)
+        else:
+            if wrap == 'for':
+                variables = {'v%d' % i: [_py_value(r[i]) for r in rows] for i in var_pos}
+            else:
+                variables = {'v%d' % i: _py_value(rows[0][i]) for i in var_pos if rows[0][i][0] != 's'}
+            try:
+                got = token.get_results(XPathContext(root, variables=variables))
+            except ElementPathError as err:
+                got = None
+                discs.append(Disc(f'{base}/error/{(err.code or "").split(":")[-1]}', 'values', str(err)[:150], expr))
+            if got is not None and wrap == 'items' and ver == '1.0':
+                if any(e is None for e in expected):
+                    pass
+                else:
+                    want = sum(1 for e in expected if e[1] is True) if bool_fn else len(rows)
+                    if not _same_number(got, want):
+                        k = next((k for k, (r, e) in enumerate(zip(rows, expected)) if not fresh_ok(r, e)), None)
+                        kind = 'state-kept-on-token' if k is None else 'value'
+                        discs.append(Disc(f'{base}/{kind}', want, got, f'{expr} over {rows!r}'[:500]))
+            elif got is not None:
+                lst = got if isinstance(got, list) else [got]
+                if len(lst) != len(rows):
+                    discs.append(Disc(f'{base}/result-count', len(rows), lst, expr))
+                else:
+                    for k, (r, e, g) in enumerate(zip(rows, expected, lst)):
+                        if e is not None:
+                            report(k, r, e, ('ok', g))
+    except Exception as e:
+        discs.append(Disc(escape_bucket('C09', e) + f'/reuse/{wrap}/{fn}/{vg}', 'values', repr(e), expr))
+    return discs
+
+
+def judge_reuse(case, rec=None):
+    out = []
+    for c in _cases_of('reuse', case):
+        ds = judge_reuse_case(c, rec)
+        if rec is not None:
+            rec.discs_of('reuse', c, ds)
+        out += ds
+    return out
+
+
+# --------------------------------------------------------------------------
 # module interface
 # --------------------------------------------------------------------------
-_STRATS = {'ref': pool_strategy, 'lxml': pool_strategy, 'laws': pool_strategy}
-_JUDGES = {'ref': judge_ref, 'lxml': judge_lxml, 'laws': judge_laws}
+_STRATS = {'ref': pool_strategy, 'lxml': pool_strategy, 'laws': pool_strategy, 'reuse': pool_strategy}
+_JUDGES = {'ref': judge_ref, 'lxml': judge_lxml, 'laws': judge_laws, 'reuse': judge_reuse}
 
 
 def selftest():
@@ -1058,7 +1272,8 @@ def selftest():
 
 def jobs(tier, seed):
     q = tier == 'quick'
-    plan = {'ref': (8, 1500 if q else 12000), 'lxml': (4, 1500 if q else 12000), 'laws': (3, 1000 if q else 8000)}
+    plan = {'ref': (7, 1500 if q else 12000), 'lxml': (4, 1300 if q else 10000), 'laws': (2, 1000 if q else 8000),
+            'reuse': (3, 900 if q else 7000)}
     out = []
     for chk, (shards, n) in plan.items():
         for i in range(shards):
